@@ -596,6 +596,7 @@ def _r2_r3(ctx: Ctx, m: pf.Module, classes: Dict[str, ast.ClassDef]) -> int:
         xw = W.param_names(wfn)[1]
         # parameters of the type that the rebuilt value carries (reference genome of a locus, point type of an interval) come from the decoding type
         for prm_, ok_, what_ in W.type_params_passed(classes, cname, rfn, ctor, vc):
+            ctx.need(ok_ is not None, f'{cname}.{FROM}: the {vc.name} is built with {prm_} = {what_}: not recognised as the type\'s own {prm_} nor as something else')
             ctx.check(ok_, 'R3', f'{F}::{cname}.{FROM}::{vc.name}({prm_}=) comes from the type',
                       f'{cname}.{FROM} builds the {vc.name} with {prm_} = {what_} instead of self.{prm_}: the wire form does not carry the {prm_}, so a value of '
                       f'{cname}<X> is read back with another {prm_} and compares unequal', m.path, ctor.lineno, detail={'param': prm_})
@@ -1100,26 +1101,37 @@ FIELD_TABLES = ('self.items()', 'self._field_types.items()', 'self.types', 'self
 
 
 def _role(fn: pf.FuncDef, recv: ast.AST) -> str:
-    """Normalised component role of a converter receiver / guard subject: element_type, key_type, value_type, point_type, t, fields."""
+    """Normalised component role of a converter receiver / guard subject: element_type, key_type, value_type, point_type, fields.
+    Roles are compared across paths and directions, so a receiver that is not recognised is not given a made-up role: the analysis declines."""
     if isinstance(recv, ast.Attribute) and isinstance(recv.value, ast.Name) and recv.value.id == 'self':
         return recv.attr.lstrip('_')
     if isinstance(recv, ast.Subscript) and pf.nsrc(recv.value) in ('self.types', 'self._types', 'self._field_types', 'self'):
         return 'fields'
+    if pf.nsrc(recv) in ('self', 'super()'):
+        return 'self'   # the type's own converter (base-class entry points)
     if isinstance(recv, ast.Name):
         for n in ast.walk(fn):
             tgt = it = None
             if isinstance(n, (ast.For, ast.comprehension)):
                 tgt, it = n.target, n.iter
-            if tgt is None:
+            if tgt is None or not any(isinstance(x, ast.Name) and x.id == recv.id for x in ast.walk(tgt)):
                 continue
             if isinstance(it, ast.Call) and pf.dotted(it.func) == 'enumerate' and it.args and isinstance(tgt, ast.Tuple) and len(tgt.elts) == 2:
                 tgt, it = tgt.elts[1], it.args[0]
-            if pf.nsrc(it) in FIELD_TABLES and any(isinstance(x, ast.Name) and x.id == recv.id for x in ast.walk(tgt)):
-                return 'fields'
+            pairs = [(tgt, it)]
+            if isinstance(it, ast.Call) and pf.dotted(it.func) == 'zip' and isinstance(tgt, ast.Tuple) and len(tgt.elts) == len(it.args) and not it.keywords:
+                pairs = list(zip(tgt.elts, it.args))
+            for t_, i_ in pairs:
+                if any(isinstance(x, ast.Name) and x.id == recv.id for x in ast.walk(t_)):
+                    i_r = pf.resolve_expr(fn, i_)
+                    if isinstance(i_r, ast.Call) and pf.dotted(i_r.func) in ('list', 'tuple') and len(i_r.args) == 1 and not i_r.keywords:
+                        i_r = i_r.args[0]
+                    if pf.nsrc(i_r) in FIELD_TABLES:
+                        return 'fields'
         d = pf.single_def(fn, recv.id)
         if isinstance(d, ast.expr) and not isinstance(d, ast.Name):
             return _role(fn, d)
-    return pf.nsrc(recv)
+    raise AnalysisError(f'{F}::{fn.name} (line {getattr(recv, "lineno", fn.lineno)}): converter receiver / guard subject `{pf.nsrc(recv)[:60]}` is not a recognised component of the type')
 
 
 class _Path:
